@@ -51,6 +51,10 @@ func DrawEnv(t *rapid.T, opt EnvOpt) *Env {
 		e.Ext = []*ExtPkg{{Dir: "ext1", Name: "ext"}, {Dir: "x/ext", Name: "ext"}}
 		if opt.DistinctExt || rapid.IntRange(0, 3).Draw(t, "extnames") == 0 {
 			e.Ext[1] = &ExtPkg{Dir: "x/other", Name: "other"}
+		} else if rapid.IntRange(0, 2).Draw(t, "ext3") == 0 {
+			// a third package of the same name whose import path differs from the second one's only in a
+			// character that is not an identifier character (import aliases are minted from the path)
+			e.Ext = append(e.Ext, &ExtPkg{Dir: "x_ext", Name: "ext"})
 		}
 		for i, xp := range e.Ext {
 			// a named basic, a key struct and 1-2 general structs per ext package
@@ -96,11 +100,12 @@ func DrawEnv(t *rapid.T, opt EnvOpt) *Env {
 	}
 	// named basics
 	nbPool := []struct{ n, u string }{{"MyInt", "int"}, {"MyStr", "string"}, {"MyBool", "bool"}, {"MyF", "float64"}, {"MyU8", "uint8"},
-		{"MyC", "complex128"}, {"MyI64", "int64"}, {"MyF32", "float32"}, {"MyRune", "rune"}, {"MyU", "uint"}}
+		{"MyC", "complex128"}, {"MyI64", "int64"}, {"MyF32", "float32"}, {"MyRune", "rune"}, {"MyU", "uint"},
+		{"MyU64", "uint64"}, {"MyI8", "int8"}, {"MyU16", "uint16"}, {"MyI32", "int32"}, {"MyUptr", "uintptr"}, {"MyC64", "complex64"}, {"MyU32", "uint32"}, {"MyI16", "int16"}}
 	nnb := rapid.IntRange(1, 4).Draw(t, "nnb")
 	start := rapid.IntRange(0, len(nbPool)-1).Draw(t, "nbstart")
 	for i := 0; i < nnb; i++ {
-		x := nbPool[(start+i*3)%len(nbPool)]
+		x := nbPool[(start+i*5)%len(nbPool)]
 		dup := false
 		for _, d := range e.NamedBasic {
 			if d.Name == x.n {
